@@ -299,6 +299,9 @@ func (p *c18) Init(tier string) {
 		if f.name == "CONSTANT" {
 			p.cases = append(p.cases, c18case{fi, "contexts", 0})
 		}
+		if f.name == "CHANGETYPE" {
+			p.cases = append(p.cases, c18case{fi, "roundtrip", 0})
+		}
 	}
 }
 
@@ -309,6 +312,9 @@ func (p *c18) Describe(i int) any {
 	f := &p.fns[c.fn]
 	if c.kind == "contexts" {
 		return map[string]any{"function": "CONSTANT / GETVAR", "kind": "the configured constant / variable is returned in every nested context (derived table, CTE, union branches, subqueries, join side, nested FROM) under every combination of the other options"}
+	}
+	if c.kind == "roundtrip" {
+		return map[string]any{"function": f.name, "kind": "string <-> double round-trips for doubles of every magnitude (1e-10 .. 1.5e300, whole numbers at and beyond 2^53 / 2^63, fractions)"}
 	}
 	if c.kind == "history" {
 		return map[string]any{"function": f.name, "kind": "history independence: a call returns the same value before and after every rejected or failing call of the same function"}
@@ -482,10 +488,43 @@ func (p *c18) checkCall(r *core.CaseResult, f *c18fn, args []any) {
 	}
 }
 
+// runRoundTrip: CHANGETYPE(v, 'string') of a double is text that reads back as the same double, and
+// CHANGETYPE(that text, 'double') is v - for every magnitude, not only small whole numbers.
+func (p *c18) runRoundTrip(r *core.CaseResult) {
+	vals := []float64{0, 1, -1, 1e6, -1e6, 123456789, 1e15, 9007199254740992, -9007199254740992, 9223372036854775808, -9223372036854775808, 1e19, 18446744073709551616, -1e30, 1.5e300, 0.1, -0.5, 1e-7, -2.5e-10, 1.0 / 3.0, 2.5, 1234.5678}
+	for _, v := range vals {
+		doc := map[string]any{"t": []any{map[string]any{"c0": v}}}
+		o := gq.Run(doc, "SELECT CHANGETYPE(c0, 'string') AS s, CHANGETYPE(CHANGETYPE(c0, 'string'), 'double') AS d, CHANGETYPE(CHANGETYPE(c0, 'STRING'), 'Double') AS d2 FROM t")
+		r.Execs++
+		cs := map[string]any{"value": v}
+		if o.Failed() || len(o.Rows) != 1 {
+			r.Fail("C18|CHANGETYPE|round-trip|"+o.Status(), fmt.Sprintf("CHANGETYPE(%v, 'string') and back: %s %v %s", v, o.Status(), o.Err, o.Panic), cs)
+			continue
+		}
+		row, _ := o.Rows[0].(map[string]any)
+		str, isStr := row["s"].(string)
+		back, err := strconv.ParseFloat(str, 64)
+		if !isStr || err != nil || back != v {
+			r.Fail("C18|CHANGETYPE|round-trip|text", fmt.Sprintf("CHANGETYPE(%v, 'string') = %s, which does not read back as %v", v, gq.Render(row["s"]), v), cs)
+			continue
+		}
+		if row["d"] != v || row["d2"] != v {
+			r.Fail("C18|CHANGETYPE|round-trip|double", fmt.Sprintf("CHANGETYPE(CHANGETYPE(%v, 'string'), 'double') = %s / %s", v, gq.Render(row["d"]), gq.Render(row["d2"])), cs)
+			continue
+		}
+		r.Nontrivial = true
+		r.Outcomes = append(r.Outcomes, str)
+	}
+}
+
 func (p *c18) RunCase(i int) *core.CaseResult {
 	r := &core.CaseResult{}
 	c := p.cases[i]
 	f := &p.fns[c.fn]
+	if c.kind == "roundtrip" {
+		p.runRoundTrip(r)
+		return r
+	}
 	if c.kind == "arity" {
 		for k := 0; k <= f.arity+2; k++ {
 			if k == f.arity {
